@@ -29,7 +29,7 @@ N = {"quick": 40000, "thorough": 600000}
 BUDGET = {"quick": 55, "thorough": 420}
 RESAMPLE = 15
 RULE = (
-    "index k < 900 additionally yields one exhaustive batch (maxsize, first two operations, all continuations up to the length bound). index k -> k%4!=3: container history (tasks, ops, maxsize, schedule); k%4==3: PoolManager scenario. Non-trivial = a pre-emptive switch landed or >= 4 operations; distinct = distinct "
+    "index k < 900 additionally yields one exhaustive batch (maxsize, first two operations, all continuations up to the length bound). index k -> k%5!=3: container history (tasks, ops, maxsize, schedule); k%5==3: PoolManager scenario. Non-trivial = a pre-emptive switch landed or >= 4 operations; distinct = distinct "
     "(operation scripts, maxsize, sequence of (task, location) at context switches)."
 )
 ASSUMPTIONS = ["values are unique per set so every observed/disposed value is attributable to one write", "PoolManager in this tree evicts without a dispose callback: evicted pools close when garbage collected; the harness calls gc.collect() at scripted points"]
@@ -133,7 +133,7 @@ def cases(seed, k, tier):
         # exhaustive stratum: every operation sequence of length <= L for this (maxsize, first two operations) -- the whole
         # index range [0, 900) together is every sequence of length <= L over 4 keys for maxsize 0..3
         yield {"property": ID, "kind": "lru_enum", "maxsize": k % 4, "prefix": [k // 4 // len(ALPHA), k // 4 % len(ALPHA)], "length": L}
-    yield gen_pm(rng) if k % 4 == 3 else gen_lru(rng)
+    yield gen_pm(rng) if k % 5 == 3 else gen_lru(rng)  # (5 is coprime to the worker count: every worker gets its share of both kinds)
 
 
 def _seq_ops(idx_seq):
